@@ -127,6 +127,9 @@ class Mxl(Stream):
                 if in_range(sc):
                     break
                 sc = draw(i)
+            if i == 0:
+                # the first case written to a file holds a zero-length rest whatever the seed (the listed finding's own example)
+                sc[0]["parts"][0][1].insert(1, {"kind": "r", "val": 0, "oct": 0, "dur": F(0), "amp": 66})
             case = {"score": sc}
             if i % 25 in (0, 1):
                 case["xml"] = True        # also written to a file (every case in the thorough tier); i % 25 == 0 are cases with zero-length elements
